@@ -327,3 +327,13 @@ Proof.
   - rewrite O. simpl. rewrite N.eqb_refl. reflexivity.
   - rewrite I. simpl. rewrite N.eqb_refl. reflexivity.
 Qed.
+
+(* ---------------------------------------------------------------- *)
+(* a stale lease file cannot change the configuration the theorems are about *)
+Theorem loaded_cfg_id : forall c hb nb, loaded_cfg c hb nb = c.
+Proof.
+  intros c hb nb. unfold loaded_cfg.
+  destruct (_ && _) eqn:E; auto.
+  apply andb_true_iff in E as [E E4]. apply andb_true_iff in E as [E E3]. apply andb_true_iff in E as [E1 E2].
+  apply N.eqb_eq in E2, E4. subst. destruct c; reflexivity.
+Qed.
